@@ -32,7 +32,7 @@ deriving DecidableEq, Repr
 def unrepaired : Fixes := ⟨false, false⟩
 def allFixed : Fixes := ⟨true, true⟩
 /-- the code of the tree the check runs against -/
-def current : Fixes := unrepaired
+def current : Fixes := allFixed
 
 inductive Fault
   | idx (i : Nat)     -- element index ≥ nmemb dereferenced
